@@ -78,7 +78,14 @@ func exprList(r *Rng, n int) string {
 
 func genC14Stmt(r *Rng, reading bool) c14Stmt {
 	for {
-		switch k := r.Intn(39); {
+		switch k := r.Intn(40); {
+		case k == 39:
+			// parameters with default expressions (evaluated at every call that leaves the argument out)
+			return c14Stmt{Src: r.PickS(
+				"DECLARE fd FUNCTION (@a, @b DEFAULT @a * 2) AS BEGIN RETURN @a + @b; END; PRINT fd(1); PRINT fd(10); PRINT fd(1); PRINT fd(1, 1); DISPOSE FUNCTION fd;",
+				"DECLARE fe FUNCTION (@a DEFAULT @n + 1, @b DEFAULT UPPER(@x)) AS BEGIN RETURN STRING(@a) || @b; END; PRINT fe(); VAR @keep := @n; @n := @n + 5; PRINT fe(); @n := @keep; DISPOSE @keep; PRINT fe(2); DISPOSE FUNCTION fe;",
+				"DECLARE ff FUNCTION (@a, @b DEFAULT (SELECT MAX(v) FROM a WHERE id <= @a)) AS BEGIN RETURN @b; END; SELECT id, ff(id) FROM a ORDER BY id LIMIT 4; PRINT ff(2); DISPOSE FUNCTION ff;",
+				"DECLARE ag AGGREGATE (@vals, @w DEFAULT @n * 2) AS BEGIN VAR @t := 0; VAR @e; WHILE @e IN @vals DO @t := @t + IFNULL(@e, 0) * @w; END WHILE; RETURN @t; END; SELECT ag(v) FROM a; SELECT ag(v, 1) FROM a; SELECT g, ag(v) FROM a GROUP BY g; DISPOSE FUNCTION ag;"), Repeat: 2, Reads: true}
 		case k == 37 || k == 38:
 			// outer joins: the record a join hands on (matched, or padded with NULLs) comes from the join's own
 			// record pool and must not go back to it
